@@ -312,11 +312,25 @@ def a4_drop_guard(ctx) -> None:
                       + (f" and other mutations: {[norm(c) for c in other_mut]}" if other_mut else ""))
         return
     app = appends[0]
-    # the append must be unconditional in the loop body (after the skip)
-    if C.stmt_of(app) not in loop.body:
-        ctx.violation("A4", app, "the kept label is appended conditionally: some non-empty children are not recorded")
-    else:
+    # the label is kept on every path on which the child is not dropped: either the append is
+    # unconditional in the loop body (after the guarded skip), or the only condition on it is
+    # the negation of a test that implies possibly_empty AND is_empty
+    if C.stmt_of(app) in loop.body:
         ctx.ok("A4", "every non-skipped child label is kept")
+    else:
+        cond_ok = True
+        raw = C.guards(f, app, within=loop)
+        for t, pol in raw:
+            stripped = C.flatten_guards([(t, pol)])
+            if len(stripped) == 1 and stripped[0][1] is False:
+                conj = {norm(x) for x, p in C.flatten_guards([(stripped[0][0], True)]) if p}
+                if {want_pe[0], want_em[0]} <= conj:
+                    continue
+            cond_ok = False
+        if raw and cond_ok:
+            ctx.ok("A4", "a child label is kept unless possibly_empty AND is_empty(child_class, child_label)")
+        else:
+            ctx.violation("A4", app, "the kept label is appended conditionally: some non-empty children are not recorded")
     if other_mut:
         for c in other_mut:
             ctx.violation("A4", c, f"`{norm(c)}` alters the kept labels outside the guarded skip")
@@ -328,7 +342,7 @@ def a4_drop_guard(ctx) -> None:
         ctx.violation("A4", f, f"`{lst}` must start as an empty list", construct=f"RuleDBBase._clean_labels {lst} initial value")
     for r in C.returns_of(f):
         t = norm(r.value) if r.value is not None else ""
-        if t in (f"tuple(sorted({lst}))", f"tuple({lst})", f"tuple(sorted({lst}, key=None))"):
+        if t in (f"tuple(sorted({lst}))", f"tuple({lst})", f"tuple(sorted({lst}, key=None))") or (r.value is not None and D.sorted_tuple_of(f, r) == lst):
             ctx.ok("A4", f"result is {t}: every kept label, with multiplicity")
         else:
             ctx.violation("A4", r, f"result `{t}` is not the kept labels themselves (tuple(sorted({lst}))): repeated or kept children may be lost")
